@@ -386,6 +386,17 @@ def family_from_spec(s: dict):
 
 BUMPS = (3001, 3500, 4200, 7000, 31000)  # > 3 s apart, except where concretise() asks for a fragment merge
 FRAGMENT_CODES = ("000A",)
+# by how much the clock is put back before a packet whose stamp is earlier than the clock before it (MsgStore:
+# StampSteps < 0): a millisecond or two, an NTP step, an hour (the end of DST - the library uses naive local time)
+BACK_STEPS = (1, 2, 40, 700, 2900, 3001, 12_000, 3_600_000)
+
+
+def _step(d: int, rnd: random.Random) -> int:
+    """The model's stamp step d (> 0 time went by, 0 the same millisecond - a second frame of one serial read -,
+    < 0 the clock was put back) as a concrete number of milliseconds."""
+    if d > 0:
+        return rnd.choice(BUMPS)
+    return 0 if d == 0 else -rnd.choice(BACK_STEPS)
 
 
 def concretise(h: tuple, fam, rnd: random.Random) -> list[dict]:
@@ -393,16 +404,16 @@ def concretise(h: tuple, fam, rnd: random.Random) -> list[dict]:
     for e in h:
         kind = e[0]
         if kind == "rx":
-            _, k, form, pairs, _life, mt = e
+            _, k, form, pairs, _life, _t, mt, d = e  # mt = the message's arrival number in the model's history
             pairs = sorted(pairs)
             fr = fam.frame(k, form, pairs, rnd)
             if fr is None:
                 continue
-            dt = rnd.choice(BUMPS)
+            dt = _step(d, rnd)
             # a per-zone 000A hard on the heels of the array form (the controller's confirmation of a change): the
             # library takes it for the tail of the array and merges the two (dispatcher.detect_array_fragment) -
             # the zone's newest message is still this one
-            if (form != "A" and getattr(fam, "codes", {}).get(k) in FRAGMENT_CODES and out and out[-1]["k"] == "rx"
+            if (d > 0 and form != "A" and getattr(fam, "codes", {}).get(k) in FRAGMENT_CODES and out and out[-1]["k"] == "rx"
                     and out[-1]["code"] == k and out[-1]["form"] == "A" and rnd.random() < 0.6):
                 for _ in range(8):
                     if fr[:2] == " I":
@@ -413,7 +424,7 @@ def concretise(h: tuple, fam, rnd: random.Random) -> list[dict]:
             out.append({"k": "rx", "code": k, "form": form, "cs": [p[0] for p in pairs],
                         "vs": [p[1] for p in pairs], "frame": fr, "dt": dt, "mt": mt})
         elif kind == "other":
-            out.append({"k": "other", "frame": fam.other(rnd), "dt": rnd.choice(BUMPS)})
+            out.append({"k": "other", "frame": fam.other(rnd), "dt": _step(e[2], rnd)})
         elif kind == "tick":
             out.append({"k": "tick", "ref": e[2][0], "j": e[2][1]})
         elif kind == "read":
@@ -458,16 +469,34 @@ async def execute(fam, events: list[dict], *, final_reads: int = 2, verbose: boo
     gwy, tr = await fakes.make_port_gateway(config={"disable_sending": True}, schema=schema, known_list=known)
     got: list[Any] = []
     gwy.add_msg_handler(got.append)
+    from ramses_tx.packet import Packet
+
     ents = fam.entities(gwy)
     n = fam.n_ctx()
-    now = START_MS
-    loop._vt = now / 1000.0
-    msgs: list[Any] = []  # modelled messages, in receipt order
-    t_of: dict[int, int] = {}  # abstract receipt time -> index into msgs
+    # two clocks: `now` is the wall clock (ms) - what the transport stamps packets with and what the gateway's
+    # _dt_now() returns, the only clock the library ages messages by; it can be put back (dt < 0).  The loop's
+    # monotonic clock (real time) stands at now + sk, sk = by how much the wall clock has been put back so far.
+    sk = 0
+    now = START_MS + sum(-e["dt"] for e in events if e["k"] in ("rx", "other") and e["dt"] < 0)
+    loop._vt = (now + sk) / 1000.0
+    msgs: list[Any] = []  # modelled messages, in order of arrival
+    t_of: dict[int, int] = {}  # the model's message id (arrival number in its history) -> index into msgs
     rec: list[dict] = []
+
+    def wall() -> _dt.datetime:
+        return fakes.EPOCH + _dt.timedelta(milliseconds=now)
+
+    tr._dt_now = wall  # type: ignore[method-assign]
+    tr.make_pkt = lambda frame, rssi="045": Packet(wall(), f"{rssi} {frame}")  # type: ignore[method-assign]
+    if gwy._dt_now() != wall():
+        raise RuntimeError("harness: the gateway does not read the harness's wall clock")
 
     def ms_of(m: Any) -> int:
         return int(round((m.dtm - fakes.EPOCH) / _dt.timedelta(milliseconds=1)))
+
+    def arrival(m: Any) -> int:
+        """Which of the history's messages is this object (stamps need not tell them apart)?"""
+        return next((i + 1 for i, x in enumerate(msgs) if x is m), -1)
 
     def slots() -> list[list[int]]:
         out = []
@@ -476,17 +505,17 @@ async def execute(fam, events: list[dict], *, final_reads: int = 2, verbose: boo
             for k in (1, 2, 3):
                 code = fam.real_code(c, k)
                 m = ents[c - 1]._msgs_.get(code) if code else None
-                row.append(ms_of(m) if m is not None else 0)
+                row.append(arrival(m) if m is not None else 0)
             out.append(row)
         return out
 
     def record(base: dict) -> None:
-        ev = {"k": "", "code": 0, "form": "", "cs": [], "vs": [], "life": 0, "t": now, "c": 0, "a": 0,
+        ev = {"k": "", "code": 0, "form": "", "cs": [], "vs": [], "life": 0, "t": now, "sk": sk, "c": 0, "a": 0,
               "obs": 0, "slots": slots(), "exp": [exp_flag(m) for m in msgs], "mcs": [], "mvs": [], "mlife": 0}
         ev.update(base)
         rec.append(ev)
         if verbose:
-            print(f"  t={now:>10} {ev['k']:5} " + " ".join(f"{k}={ev[k]}" for k in ("code", "form", "cs", "vs", "life", "c", "a", "obs") if ev[k] not in (0, "", []))
+            print(f"  t={now:>10}{f' (put back {sk} ms so far)' if sk else ''} {ev['k']:5} " + " ".join(f"{k}={ev[k]}" for k in ("code", "form", "cs", "vs", "life", "c", "a", "obs") if ev[k] not in (0, "", []))
                   + f" slots={ev['slots']} exp={ev['exp']}")
 
     async def inject(frame: str) -> Any:
@@ -512,8 +541,10 @@ async def execute(fam, events: list[dict], *, final_reads: int = 2, verbose: boo
     try:
         for e in events:
             if e["k"] in ("rx", "other"):
+                if e["dt"] < 0:  # the wall clock is put back (no real time goes by)
+                    sk -= e["dt"]
                 now += e["dt"]
-                loop._vt = now / 1000.0
+                loop._vt = (now + sk) / 1000.0
                 if e.get("read_in_callback"):  # a client callback that reads an attribute on every message
                     rc, ra = e["read_in_callback"]
                     rname, _dec = fam.reader(rc, ra)
@@ -535,9 +566,11 @@ async def execute(fam, events: list[dict], *, final_reads: int = 2, verbose: boo
                     msgs.append(m)
                     t_of[e["mt"]] = len(msgs) - 1
                     merged: dict[int, int] = {}
-                    if e["form"] != "A" and isinstance(m.payload, list):
+                    if isinstance(m.payload, list) and (e["form"] != "A" or len(m.payload) > len(e["cs"])):
                         # the library merged this packet into the array before it (the implementation-shaped model
-                        # must know: the stored message then covers the array's zones too); the contract does not care
+                        # must know: the stored message then covers the array's zones too); the contract does not care.
+                        # With a stamp less than 3 s past the array's (the same millisecond, a clock put back) the
+                        # packet merged may itself be an array: the second fragment of a long one
                         if prev_rx is None or prev_rx["form"] != "A" or prev_rx["code"] != e["code"]:
                             raise RuntimeError(f"harness: unexpected merge of {e['frame']}")
                         merged = dict(zip(prev_rx.get("_mcs", prev_rx["cs"]), prev_rx.get("_mvs", prev_rx["vs"])))
@@ -564,7 +597,7 @@ async def execute(fam, events: list[dict], *, final_reads: int = 2, verbose: boo
                 if tgt <= now:
                     continue
                 now = tgt
-                loop._vt = now / 1000.0
+                loop._vt = (now + sk) / 1000.0
                 await vloop.drain()
                 record({"k": "tick"})
             elif e["k"] == "read":
@@ -577,6 +610,6 @@ async def execute(fam, events: list[dict], *, final_reads: int = 2, verbose: boo
                     await do_read(c, a)
     finally:
         await gwy.stop()
-    if now >= 2**31 - 1:
+    if now + sk >= 2**31 - 1:
         raise RuntimeError("harness: clock exceeds TLC's integer range")
     return {"attrs": fam.attr_codes(), "ev": rec}
